@@ -80,12 +80,20 @@ Definition vstep (res : list (string * pv)) (a : string) : list (string * pv) :=
     end
   else res.
 
+(* UnquoteName: a quoted NAME field is the text between the quotes as it is (operator<, a name with a colon); an unquoted one
+   (NULL) is cleaned as every other text *)
+Definition unquote_name (a : string) : string :=
+  let t := py_strip a in
+  if Nat.leb 2 (String.length t) && prefixb (String DQ "") t && String.eqb (substring (String.length t - 1) 1 t) (String DQ "")
+  then py_strip (substring 1 (String.length t - 2) t)
+  else py_strip (mass_replace a).
+
 (* Get_ValuesFromOutside *)
 Definition values_from_outside (o : string) : option (list (string * pv)) :=
   if no_char ";" o && negb (no_char ":" o) then
-    let all := split_on ":" o in
+    let all := qsplit ":" o in                                                  (* colons inside the quoted name are text *)
     a0 <- nth_str 0 all ;; a1 <- nth_str 1 all ;; a2 <- nth_str 2 all ;;     (* IndexError *)
-    Some [("id", PStr (py_strip (mass_replace a0))); ("name", PStr (py_strip (mass_replace a1))); ("type", PStr (py_strip (mass_replace a2)))]
+    Some [("id", PStr (py_strip (mass_replace a0))); ("name", PStr (unquote_name a1)); ("type", PStr (py_strip (mass_replace a2)))]
   else
     Some (fold_left vstep (qsplit ";" o) []).
 
@@ -562,6 +570,44 @@ Definition render_class (c : rclass) : cls :=
 Definition to_cdiagram (r : rdiagram) : cdiagram :=
   {| classes := map (fun kc => render_class (snd kc)) (rd_classes r);
      inhs := map (fun ki => {| i_to := ri_to_id (snd ki); i_from := ri_from_id (snd ki); i_real := ri_real (snd ki) |}) (rd_inhs r) |}.
+
+(* ---------------------------------------------------------------- the same for the C# back end (LanguageCsharp's helpers) *)
+
+(* LanguageCsharp.GetTypeAndNameFromMultiplicityAndModifier: qualified names with dots, no pointer / reference modifiers, List<>
+   for vectors, [] behind the TYPE for arrays *)
+Definition type_and_name_cs (ty modifier mult name : string) : string * string :=
+  let ty := replace_all "::" "." ty in
+  let md := if contains "*" modifier || contains "&" modifier then "" else modifier in
+  if String.eqb (py_strip md) "[]" && String.eqb mult "" then ("List<" ++ ty ++ ">", name)
+  else
+    let ct := container_type mult in
+    if contains "vector" ct then ("List<" ++ ty ++ md ++ ">", name)
+    else if contains "array" ct then (ty ++ md ++ "[]", name)
+    else (ty ++ md, name).
+
+(* a parameter as harness/umlsynth.abstract_cs computes it: ref for inout, out for out, nothing for in; the default through
+   GetDefaultFormatFromMultiplicityAndModifier (the same text as in LanguageCPP, with the modifier as drawn) *)
+Definition render_param_cs (p : rparam) : param :=
+  let tn := type_and_name_cs (py_strip (rp_type p)) (py_strip (rp_modifier p)) (py_strip (rp_mult p)) (py_strip (rp_name p)) in
+  let d := py_strip (rp_dir p) in
+  {| p_type := lstrip ((if contains "inout" d then "ref " else if contains "out" d then "out " else "") ++ fst tn); p_name := snd tn;
+     p_default := if String.eqb (py_strip (rp_default p)) "" then ""
+                  else default_format (py_strip (rp_modifier p)) (py_strip (rp_mult p)) (rp_default p);
+     p_ext := snd (type_and_name_cs (py_strip (rp_type p)) (py_strip (rp_modifier p)) (py_strip (rp_mult p)) "") |}.
+
+Definition render_op_cs (o : rop) : oper :=
+  {| o_name := ro_name o; o_vis := ro_vis o; o_ret := fst (type_and_name_cs (ro_ret o) (ro_retmod o) "" "");
+     o_params := map render_param_cs (ro_params o); o_virtual := ro_virtual o; o_static := ro_static o; o_const := ro_const o |}.
+
+Definition render_class_cs (c : rclass) : cls :=
+  {| c_id := rc_id c; c_name := rc_name c; c_ns := rc_ns c; c_enum := rc_enum c; c_struct := rc_struct c; c_autogen := rc_autogen c;
+     c_pure := rc_pure c; c_ops := map render_op_cs (rc_ops c) |}.
+
+Definition to_cdiagram_cs (r : rdiagram) : cdiagram :=
+  {| classes := map (fun kc => render_class_cs (snd kc)) (rd_classes r);
+     inhs := map (fun ki => {| i_to := ri_to_id (snd ki); i_from := ri_from_id (snd ki); i_real := ri_real (snd ki) |}) (rd_inhs r) |}.
+
+Definition adaptor_cs (d : db) (name : string) : option cdiagram := r <- load_cdiagram d name ;; Some (to_cdiagram_cs r).
 
 (* project rows -> the diagram the generator model works on *)
 Definition adaptor (d : db) (name : string) : option cdiagram := r <- load_cdiagram d name ;; Some (to_cdiagram r).
